@@ -27,7 +27,21 @@ def cases_for(ctx):
         nodes.append(sc.call("contains", ast.Identifier(nm), ast.Identifier("s1")))
     return sc.dedup(nodes + typed), {enc(t) for t in typed}
 
-def judge_batch(cases):
+def has_call(n, names):
+    import dataclasses
+    if isinstance(n, ast.Call) and not n.func.namespace and n.func.name in names:
+        return True
+    if dataclasses.is_dataclass(n):
+        for f in dataclasses.fields(n):
+            v = getattr(n, f.name)
+            if isinstance(v, list):
+                if any(has_call(x, names) for x in v if isinstance(x, ast._Node)):
+                    return True
+            elif isinstance(v, ast._Node) and has_call(v, names):
+                return True
+    return False
+
+def judge_batch(cases, nodes=None):
     """cases: list of (dialect, alias, wire, real_outcome) -> list of verdicts
     (kind, detail): agree | not-expressible | unsafe | refused | VIOL-unreadable | VIOL-tree | VIOL-alias"""
     reqs = []
@@ -40,7 +54,9 @@ def judge_batch(cases):
     for i, (d, a, w, r) in enumerate(cases):
         mir, rd, safe = outs[3 * i], outs[3 * i + 1], outs[3 * i + 2]
         if safe != "True":
-            res.append(("unsafe", "")); continue
+            # Spec.sqlSafe also excludes the standard dialect's floor/ceiling templates (known finding): judge those anyway
+            if not (d == "std" and nodes is not None and has_call(nodes[i], ("floor", "ceiling"))):
+                res.append(("unsafe", "")); continue
         if mir == "none":
             res.append(("not-expressible", "")); continue
         if not r.startswith("ok "):
@@ -53,19 +69,6 @@ def judge_batch(cases):
     return res
 
 def sig_of(node, verdict, dialect):
-    def has_call(n, names):
-        import dataclasses
-        if isinstance(n, ast.Call) and not n.func.namespace and n.func.name in names:
-            return True
-        if dataclasses.is_dataclass(n):
-            for f in dataclasses.fields(n):
-                v = getattr(n, f.name)
-                if isinstance(v, list):
-                    if any(has_call(x, names) for x in v if isinstance(x, ast._Node)):
-                        return True
-                elif isinstance(v, ast._Node) and has_call(v, names):
-                    return True
-        return False
     if dialect == "std" and has_call(node, ("floor", "ceiling")):
         return "C09:sql/base.py:sqlfunc_floor/sqlfunc_ceiling:not-sql"
     return f"C09:{dialect}:{verdict[0]}:{type(node).__name__}"
@@ -91,7 +94,7 @@ def run(ctx):
                       bucket=lambda c, r: c[0] + "/" + (r.split(" ")[0] if r.startswith("ok") else " ".join(r.split(" ")[:2])))
     # the property itself, judged by the Lean specification on what the REAL code emitted
     jc = [(c[0], c[1], c[2], real_cache[(c[0], c[1], c[2])]) for c in cases]
-    verdicts = judge_batch(jc)
+    verdicts = judge_batch(jc, [c[3] for c in cases])
     tally = collections.Counter(v[0] for v in verdicts)
     ctx.extra["judged"] = dict(tally)
     ctx.note(f"judge C09 on real output: {dict(tally)}")
@@ -137,7 +140,7 @@ def run(ctx):
         nd = eval(f["input"], {"__builtins__": {}}, {k: getattr(ast, k) for k in dir(ast) if not k.startswith("__")})
         d = f.get("dialect", "std")
         r = sc.real_sql(d, None, nd)
-        return judge_batch([(d, None, enc(nd), r)])[0][0].startswith("VIOL")
+        return judge_batch([(d, None, enc(nd), r)], [nd])[0][0].startswith("VIOL")
 
     return common.finish(
         ctx,
